@@ -180,19 +180,19 @@ MP_NOTE = 'multipart bodies are decomposed (DESIGN.md section 5b): serve() hands
 QUICK_SERVE = {'C01': ['serve_full_get_enone_m0_h0_absent_hd',
          'serve_full_get_estrong_m1_h2_absent_bd',
                   'serve_single_get_enone_m0_h0_absent',
-         'serve_multi_get_estrong_m1_h1_absent_r2_rev'],
+         'serve_multi_get_estrong_m0_h0_absent_r2_rev'],
  'C02': ['serve_single_get_enone_m0_h0_absent',
          'serve_single_get_estrong_m1_h2_same',
          'serve_full_get_ecomma_m0_h3_absent_hd',
          'serve_full_get_enone_m0_h0_absent_bd'],
- 'C03': ['serve_unsat_get_enone_m0_h0_absent', 'serve_single_get_enone_m0_h0_absent', 'serve_multi_get_estrong_m1_h1_absent_r2_rev'],
+ 'C03': ['serve_unsat_get_enone_m0_h0_absent', 'serve_single_get_enone_m0_h0_absent', 'serve_multi_get_estrong_m0_h0_absent_r2_rev'],
  'C05': ['serve_single_get_ecomma_m0_h1_same',
          'serve_multi_get_estrong_m1_h2_same_r2_req',
          'serve_single_get_eweak_m1_h1_same_hd',
          'serve_single_get_estrong_m1_h1_other_hd',
          'serve_single_get_estrong_m1_h1_weak_hd',
          'serve_single_get_estrong_m1_h1_date_hd'],
- 'C06': ['serve_multi_get_estrong_m1_h1_absent_r2_rev', 'serve_multi_head_estrong_m0_h0_absent_r2_req', 'serve_multi_get_estrong_m0_h1_other_r2_hd'],
+ 'C06': ['serve_multi_get_estrong_m0_h0_absent_r2_rev', 'serve_multi_head_estrong_m0_h0_absent_r2_req', 'serve_multi_get_estrong_m0_h1_other_r2_hd'],
  'C12': ['serve_full_get_enone_m0_h0_absent_bd', 'serve_full_get_eweak_m1_h1_absent_hd', 'serve_multi_get_estrong_m0_h0_absent_r2_req'],
  'C13': ['serve_m405_post_estrong_m1_h1_absent', 'serve_m405_ext_estrong_m1_h1_absent', 'serve_unsat_get_enone_m0_h0_absent'],
  'C14': ['serve_full_get_ecomma_m0_h3_absent_hd',
